@@ -3,9 +3,9 @@
   fibertree/model/compute.py, and the specification of C19's second sentence.
 
   `_numSwapsTree(fiber, depth, radix, next_latency)` walks `depth` levels down over the
-  *presented* elements (`for _, payload in fiber` skips empty payloads), and at the last
-  level merges the negated coordinate lists (`payload.getCoords()`: all *stored*
-  coordinates) of the presented sub-fibers in rounds of `radix` lists.
+  *stored* payloads (`fiber.getPayloads()`), and at the last level merges the negated
+  coordinate lists (`payload.getCoords()`: all stored coordinates) of the sub-fibers that
+  hold at least one coordinate, in rounds of `radix` lists.  Payload values are never read.
 -/
 import FtModel.Basic
 set_option linter.unusedVariables false
@@ -124,18 +124,26 @@ def swapsAt (radix : Option Nat) (lat : Lat) (lists : List (List Int)) : Nat :=
 def coordsOf {κ ν : Type} {d : Nat} (f : Tree κ ν (d + 1)) : List κ :=
   (show List (κ × Tree κ ν d) from f).map (·.1)
 
-/-- the coordinate lists merged at each reached fiber of level `depth`: for every
-    presented element its stored coordinates -/
-def mergeNodes (dflt : Int) (e : Nat) : (depth : Nat) → Tree Int Int (e + 2 + depth) → List (List (List Int))
-  | 0, f => [(present dflt (e + 1) f).map (fun el => coordsOf (d := e) el.2)]
-  | depth + 1, f => (present dflt (e + 2 + depth) f).flatMap (fun el => mergeNodes dflt e depth el.2)
+/-- the lists merged at one fiber of the target level: the stored coordinates of every
+    stored sub-fiber that holds at least one (`if len(payload.getCoords()) > 0`) -/
+def storedLists {ν : Type} (e : Nat) (f : Tree Int ν (e + 2)) : List (List Int) :=
+  ((show List (Int × Tree Int ν (e + 1)) from f).map (fun el => coordsOf (d := e) el.2)).filter
+    (fun l => !l.isEmpty)
+
+/-- the coordinate lists merged at each fiber of level `depth` (the walk visits every
+    stored fiber) -/
+def mergeNodes {ν : Type} (e : Nat) : (depth : Nat) → Tree Int ν (e + 2 + depth) → List (List (List Int))
+  | 0, f => [storedLists e f]
+  | depth + 1, f =>
+    (show List (Int × Tree Int ν (e + 2 + depth)) from f).flatMap (fun el => mergeNodes e depth el.2)
 
 /-- `Compute._numSwapsTree(fiber, depth, radix, next_latency)` -/
-def numSwapsTree (dflt : Int) (e : Nat) (radix : Option Nat) (lat : Lat) :
-    (depth : Nat) → Tree Int Int (e + 2 + depth) → Nat
-  | 0, f => swapsAt radix lat ((present dflt (e + 1) f).map (fun el => coordsOf (d := e) el.2))
+def numSwapsTree {ν : Type} (e : Nat) (radix : Option Nat) (lat : Lat) :
+    (depth : Nat) → Tree Int ν (e + 2 + depth) → Nat
+  | 0, f => swapsAt radix lat (storedLists e f)
   | depth + 1, f =>
-    ((present dflt (e + 2 + depth) f).map (fun el => numSwapsTree dflt e radix lat depth el.2)).sum
+    ((show List (Int × Tree Int ν (e + 2 + depth)) from f).map
+      (fun el => numSwapsTree e radix lat depth el.2)).sum
 
 /-! ### Specification -/
 
@@ -171,18 +179,9 @@ def skel {κ ν : Type} : (d : Nat) → Tree κ ν d → Tree κ Unit d
   | 0, _ => ()
   | d + 1, f => (show List (κ × Tree κ ν d) from f).map (fun el => (el.1, skel d el.2))
 
-/-- emptiness that can be read off the skeleton: a fiber without any leaf below it -/
-def skelEmpty {κ : Type} : (d : Nat) → Tree κ Unit d → Bool
-  | 0, _ => false
-  | d + 1, f => (show List (κ × Tree κ Unit d) from f).all (fun el => skelEmpty d el.2)
-
-/-- the merge lists determined by the skeleton alone -/
-def skelNodes (e : Nat) : (depth : Nat) → Tree Int Unit (e + 2 + depth) → List (List (List Int))
-  | 0, f => [((show List (Int × Tree Int Unit (e + 1)) from f).filter
-              (fun el => !skelEmpty (e + 1) el.2)).map (fun el => coordsOf (d := e) el.2)]
-  | depth + 1, f =>
-    ((show List (Int × Tree Int Unit (e + 2 + depth)) from f).filter
-      (fun el => !skelEmpty (e + 2 + depth) el.2)).flatMap (fun el => skelNodes e depth el.2)
+/-- the merge lists of a skeleton: the same walk on the tree without values -/
+def skelNodes (e : Nat) (depth : Nat) (s : Tree Int Unit (e + 2 + depth)) : List (List (List Int)) :=
+  mergeNodes e depth s
 
 /-- the swap count as a function of the skeleton only -/
 def swapsSpec (e : Nat) (radix : Option Nat) (lat : Lat) (depth : Nat)
@@ -192,15 +191,6 @@ def swapsSpec (e : Nat) (radix : Option Nat) (lat : Lat) (depth : Nat)
 /-- finite latency, closed form, as a function of the skeleton only -/
 def swapsSpecFin (e : Nat) (radix : Option Nat) (lat depth : Nat) (s : Tree Int Unit (e + 2 + depth)) : Nat :=
   ((skelNodes e depth s).map (fun ls => roundsCost radix lat (total ls) ls.length)).sum
-
-/-- every element that `_numSwapsTree` iterates over is empty exactly when its skeleton
-    shows it (false e.g. for a sub-fiber that stores only explicit defaults) -/
-def presentAgrees (dflt : Int) (e : Nat) : (depth : Nat) → Tree Int Int (e + 2 + depth) → Bool
-  | 0, f => (show List (Int × Tree Int Int (e + 1)) from f).all
-      (fun el => isEmpty dflt (e + 1) el.2 == skelEmpty (e + 1) (skel (e + 1) el.2))
-  | depth + 1, f => (show List (Int × Tree Int Int (e + 2 + depth)) from f).all
-      (fun el => (isEmpty dflt (e + 2 + depth) el.2 == skelEmpty (e + 2 + depth) (skel (e + 2 + depth) el.2))
-                 && (isEmpty dflt (e + 2 + depth) el.2 || presentAgrees dflt e depth el.2))
 
 /-! ### unbounded latency, stated on the coordinates themselves
 
